@@ -81,7 +81,14 @@ JudgeC09(h) ==
   /\ \A i \in Idx(h) : (h[i].src = "app" /\ h[i].ev = "op_start") =>
         \E j \in Idx(h) : j > i /\ h[j].src = "app" /\ h[j].ev = "op_done" /\ Has(h[j], "tag") /\ h[j].tag = h[i].tag
                            /\ Has(h[j], "op") /\ h[j].op = h[i].op
-  /\ (Meta(h).cause # "drop" => After(h) # {})
+  \* a session decision taken after the connection ended reports the cause as well
+  /\ \A i \in Idx(h) : (i > CauseIdx(h) /\ h[i].ev = "server_decided" /\ Has(h[i], "res")) =>
+        h[i].res = "err" /\ ErrAllowed(h, h[i].err)
+  /\ (Meta(h).variant = "predecision" =>
+        \E i \in Idx(h) : i > CauseIdx(h) /\ h[i].ev \in {"server_decided", "server_session"})
+  /\ \A i \in Idx(h) : (i > CauseIdx(h) /\ h[i].ev = "server_session") =>
+        h[i].res = "err" /\ ErrAllowed(h, h[i].err)
+  /\ (Meta(h).cause # "drop" /\ Meta(h).variant # "predecision" => After(h) # {})
   /\ PeerSees(h)
 
 Spec == Init /\ [][NextJ(JudgeC09)]_vars
